@@ -372,7 +372,21 @@ let () =
                 if want_kind = KEq then List.find_opt (fun (pp : ppoint) -> st_eq pp.pst post.st) pts
                 else (match List.nth_opt pts nth with Some pp when st_eq pp.pst post.st -> Some pp | _ -> None) in
               let ocs = List.concat_map (fun (t, ru) -> [ { o_tomb = n_of_int t; o_reuse = ru; o_alloc = true } ]) cands in
-              let found = List.find_map matches ocs in
+              let found_oc = List.find_map (fun oc -> match matches oc with Some pp -> Some (oc, pp) | None -> None) ocs in
+              let found = (match found_oc with Some (_, pp) -> Some pp | None -> None) in
+              (* pointer level (B/PanicB.v, bpoints_match): the links and recorded sizes found after the unwind are those of the
+                 pointer-level state the operation has reached at that callback *)
+              (match found_oc, xop, gstate_of pre with
+               | Some (oc, _), Plain (p, _, _), Some g0 when !dry_ok ->
+                 let b0 = { bg = g0; bcur = pre.st.cur; bmax = pre.st.maxs; btb = pre.st.tb } in
+                 let bps = List.filter (fun (x : bpoint) -> x.bk = want_kind) (bpoints !e b0 p { ob = oc; ob_addr = N0; ob_moves = [] }) in
+                 let got = observed_links post in
+                 let same (x : bpoint) = links_string (b_links x.bst.bg) = got in
+                 let okb = if want_kind = KEq then List.exists same bps else (match List.nth_opt bps nth with Some x -> same x | None -> false) in
+                 chk "panic_bsim" okb;
+                 if not okb then Buffer.add_string detail (Printf.sprintf "  layer B: links after the unwind %s\n    pointer-level points of this kind: %s\n" got
+                                                             (String.concat " | " (List.map (fun (x : bpoint) -> links_string (b_links x.bst.bg)) bps)))
+               | _ -> ());
               if !dry_ok then chk "panic_state" (found <> None && post.res = "panic")
               else bump dist "panic_state_not_judged_model_mismatch_in_normal_run";
               (match found with
